@@ -47,9 +47,14 @@ def make(base, tree):
             os.makedirs(p, exist_ok=True)
     for rel, kind in tree:
         p = os.path.join(base, *rel)
-        if kind == "f":
+        if kind in ("f", "p", "l"):
             os.makedirs(os.path.dirname(p), exist_ok=True)
-            open(p, "w").close()
+            if kind == "f":
+                open(p, "w").close()
+            elif kind == "p":
+                os.mkfifo(p)                              # a FIFO: not a directory, not a regular file
+            else:
+                os.symlink("no-such-target-c14", p)      # a dangling symlink: not a directory
 
 
 def descendants(top):
@@ -156,6 +161,16 @@ def main():
                         bat.case(hash((tree, new, old, mode, kind)), nontrivial=bool(tree), desc={"tree": [["/".join(r), k] for r, k in tree], "new": new, "old": old, "root": mode, "type": kind})
                         if pr:
                             bat.fail("C14.sub-events", pr[0], {"tree": [[list(r), k] for r, k in tree], "new": new, "old": old, "mode": mode, "kind": kind, "problems": pr[:3]}, "generate_sub_moved_events")
+    # entries that are neither regular files nor directories (FIFO, dangling symlink): file flavour, one event each
+    special = [t for t in ts if any(k == "f" for _r, k in t)][:: max(1, len(ts) // 12)]
+    for tree in special:
+        for sub in ("p", "l"):
+            t2 = tuple((r, sub if k == "f" else k) for r, k in tree)
+            for mode, kind in (("rel", "str"), ("abs", "bytes")):
+                pr = run_case(t2, "a", "b", mode, kind)
+                bat.case(hash((t2, mode, kind)), desc={"tree": [["/".join(r), k] for r, k in t2], "root": mode, "type": kind, "special": {"p": "FIFO", "l": "dangling symlink"}[sub]})
+                if pr:
+                    bat.fail("C14.sub-events(special entries)", pr[0], {"tree": [[list(r), k] for r, k in t2], "new": "a", "old": "b", "mode": mode, "kind": kind, "problems": pr[:3]}, "generate_sub_moved_events")
     # third anchor of the property: the same prefix rewrite in the watch-path map of Inotify.read_events
     os.environ["C02_BATTERY_PROP"] = "C14"
     import c02_battery
